@@ -63,7 +63,8 @@ def parseSym : List Nat → Option Sym
         | some (ports, []) =>
           if hn ≤ 1 then
             some { id, ns, name, hasNode := hn == 1, ins, outs,
-                   resp := if resp = 0 then none else some resp, ports }
+                   -- 200+ : a responder that succeeds in another style (packet.None singleton, fresh empty packet)
+                   resp := if resp = 0 ∨ resp ≥ 200 then none else some resp, ports }
           else none
         | _ => none
   | _ => none
